@@ -1,6 +1,6 @@
 //! C10 driver: subcommand `tcase`.
 //!
-//! case: {"id", "ts": T, "opt": bool, "mappings": {name: target}|null, "enum": bool, "scratch": dir}
+//! case: {"id", "ts": T, "opt": bool, "mappings": {name: target}|null, "enum": bool, "unit": bool, "scratch": dir}
 //!   T = ["prim", "string"|"number"|"boolean"|"void"] | ["arr", T] | ["map", T, T] | ["set", T]
 //!     | ["tuple", T...] | ["opt", T] | ["res", T] | ["custom", name]
 //!
@@ -10,8 +10,8 @@
 //!    (validator None) and build_param_schema;
 //!  * types.ts as written by TypeScriptBindingsGenerator::generate_models and by
 //!    ZodBindingsGenerator::generate_models for the same analysis result: struct S { f: T },
-//!    optionally enum K { A, B }, commands c(p: T), d(p: T, ch: Channel<T>), e(ch: Channel<T>),
-//!    u(s: S [, k: K]);
+//!    optionally enum K { A, B } and the member-less struct Z, commands c(p: T), d(p: T, ch: Channel<T>), e(ch: Channel<T>),
+//!    u(s: S [, k: K] [, z: Z]);
 //!  * the TypeStructure the real resolver reads from the channel's message type string (the channel
 //!    context re-parses the string), so that the model is fed what the implementation used.
 use serde_json::{json, Value};
@@ -188,6 +188,20 @@ pub fn tcase(case: &Value) -> Value {
             },
         );
         uparams.push(param("k", &TypeStructure::Custom("K".to_string()), false));
+    }
+    if case["unit"].as_bool().unwrap_or(false) {
+        // a struct without serialised members (unit struct, or every field #[serde(skip)])
+        structs.insert(
+            "Z".to_string(),
+            StructInfo {
+                name: "Z".to_string(),
+                fields: vec![],
+                file_path: "src/lib.rs".to_string(),
+                is_enum: false,
+                serde_rename_all: None,
+            },
+        );
+        uparams.push(param("z", &TypeStructure::Custom("Z".to_string()), false));
     }
     let commands = vec![
         command("c", vec![param("p", &t, opt)], vec![]),
